@@ -899,6 +899,10 @@ def scheck(pid: str, tier: str, extra_assumptions=None, known=None) -> int:
             if pid == "C04" or "host_leaves" in name or "cancelling()" in msg:
                 eager_hits.append((name, msg))
         real_flags["eager_directed_scenarios"] = len(eager_directed.SCENARIOS)
+    if pid == "C01":
+        import deep_directed                 # nesting deeper than the recursion limit (outside the model)
+        eager_hits += deep_directed.run_all()
+        real_flags["deep_nesting_scenarios"] = 2
 
     # kernel-checked sample (short cases keep vm_compute fast)
     idx = sorted(range(len(cases)), key=lambda i: len(cases[i]))[: (25 if tier == "quick" else 120)]
@@ -922,8 +926,9 @@ def scheck(pid: str, tier: str, extra_assumptions=None, known=None) -> int:
         rep.violation(f"[{cfg} loop] " + msg, {"kind": "monitor-real-loop", "config": cfg, "ops": rw.ops,
                                                "ops_readable": sgen.readable(rw.ops)[:200]})
     for name, msg in eager_hits[:2]:
-        rep.violation(f"[eager task factory, scenario {name}] {msg}", {"kind": "directed-eager", "scenario": name,
-                                                                        "replay": "harness/eager_directed.py runs the scenario"})
+        kind = "directed-deep" if "depth=" in name else "directed-eager"
+        rep.violation(f"[directed scenario {name}] {msg}", {"kind": kind, "scenario": name,
+                                                              "replay": f"harness/{'deep' if kind == 'directed-deep' else 'eager'}_directed.py runs the scenario"})
     tie = []
     if not proofs_ok:
         tie.append("proof obligation: " + str(rep.coverage.get("proof_failure", {}).get("where")))
@@ -973,6 +978,12 @@ def scheck(pid: str, tier: str, extra_assumptions=None, known=None) -> int:
 def sreplay(pid: str, path: str) -> int:
     """Re-executes a stored case: implementation trace, monitors, and comparison with the model."""
     data = json.loads(open(path).read())
+    if data.get("kind") == "directed-deep":
+        import deep_directed
+        r = deep_directed.run_all()
+        for n, m in r:
+            print(f"MONITOR {pid}: [{n}] {m}")
+        return 1 if r else 0
     if data.get("kind") == "directed-eager":
         import eager_directed
         r = [(n, m) for n, m in eager_directed.run_all() if n == data.get("scenario")]
